@@ -29,7 +29,7 @@ PROPS = {
     "C13": {"theorems": ["C13_extended_name_is_variable", "C13_sign_unary_iff", "C13_numeric_literal", "C13_brace_is_one_var", "C13_longest_operator_name_wins"], "modes": [{"name": "c13", "quick_n": 3, "thorough_n": 12, "shard": 120}]},
     "C15": {"theorems": ["C15_consuming_eq_cloning", "C15_arity"], "modes": [{"name": "c15", "quick_n": 150, "thorough_n": 1500, "shard": 60}]},
     "C05": {"theorems": ["C05_partial_is_the_derivative", "C05_partial_evaluates_to_the_derivative", "C05_parsed_expressions_qualify", "C05_consistent_expressions_qualify", "C05_derivatives_qualify", "C05_rule_names_match_code_partial", "C05_no_rule_for_nondifferentiable_partial", "C05_missing_binary_rule_is_error_partial", "C05_unary_rules_are_derivatives_partial", "C05_binary_rules_are_derivatives_partial"], "axioms": REAL_AXIOMS, "modes": [{"name": "c05", "quick_n": 400, "thorough_n": 3000, "shard": 30}]},
-    "C09": {"theorems": ["C09_index_checked_first_partial", "C09_order_zero_partial"], "modes": [{"name": "c09", "quick_n": 200, "thorough_n": 1500, "shard": 20}]},
+    "C09": {"theorems": ["C09_index_checked_first_partial", "C09_order_zero_partial", "C09_derivative_keeps_the_variable_list", "C09_same_values_evaluate_both", "C09_iterated_is_the_sequence_of_single_steps"], "axioms": REAL_AXIOMS, "modes": [{"name": "c09", "quick_n": 200, "thorough_n": 1500, "shard": 20}]},
     "C18": {"theorems": ["C18_condition_and_branch_rules_partial", "C18_rule_semantics_partial"], "modes": [{"name": "c18", "quick_n": 300, "thorough_n": 2500, "shard": 30}]},
     "C06": {"theorems": ["C06_tokenizer_total_partial", "C06_preconditions_total_partial", "C06_flat_parse_never_panics", "C06_parsed_flat_expressions_evaluate", "C06_deep_parse_never_panics"], "nesting": True, "modes": [{"name": "c06", "quick_n": 1500, "thorough_n": 12000, "shard": 150, "profiles": ["dev", "release"]}]},
     "C16": {"extra_vo": ["Corr/ValDriver.vo"], "theorems": ["C16_int_add_sub_mul", "C16_int_div_rem", "C16_int_shifts_and_powers", "C16_int_results_in_range", "C16_promotion", "C16_cross_kind_compare", "C16_error_propagates", "C16_error_propagates_unary", "C16_if_else"], "prim_floats": True, "modes": [{"name": "val", "quick_n": 1, "thorough_n": 1, "shard": 6500}]},
